@@ -40,6 +40,7 @@ import (
 	"github.com/nuts-foundation/nuts-node/network/transport"
 	"github.com/nuts-foundation/nuts-node/network/transport/grpc"
 	"github.com/nuts-foundation/nuts-node/vdr/resolver"
+	vtime "github.com/nuts-foundation/nuts-node/verifshim/vtime"
 	"github.com/sirupsen/logrus"
 	"google.golang.org/protobuf/proto"
 
@@ -601,6 +602,9 @@ func (x *vc15Run) probes(n *vc15Node) []vc15Probe {
 // whose payload is offered matching (stored: allowed) or mismatching (must not be stored).
 func (x *vc15Run) solicited(n *vc15Node, monitored [][]byte) {
 	for _, variant := range []string{"mismatching", "matching"} {
+		// a refused list leaves V's blocking conversation open until it expires: let (virtual) time pass
+		vtime.Advance(maxValidity + time.Second)
+		n.p.cMan.evict()
 		payload := []byte("verif-c15 new private payload " + variant)
 		offered := payload
 		if variant == "mismatching" {
@@ -621,8 +625,7 @@ func (x *vc15Run) solicited(n *vc15Node, monitored [][]byte) {
 			}
 		}
 		if cid == nil {
-			x.r.Outcome("no list query after gossip (conversation pending)")
-			continue
+			x.t.Fatalf("vacuity: V did not ask for the announced transaction (%s) [%s]", variant, n.sc)
 		}
 		res := n.send(&Envelope{Message: &Envelope_TransactionList{TransactionList: &TransactionList{ConversationID: cid,
 			Transactions: []*Transaction{{Data: tn.Data(), Payload: offered}}, TotalMessages: 1, MessageNumber: 1}}})
